@@ -261,6 +261,9 @@ def _patch_random() -> None:
                 # a deterministic string to avoid non-determinism from memory addresses.
                 x = f"{type(x).__module__}.{type(x).__name__}"
             orig_random_seed(self, x)
+            # The first call is the one made by ``Random.__init__``: remember the seed the
+            # instance was constructed with, so that it can be reseeded with the same value.
+            self.__dict__.setdefault("_pynguin_construction_seed", x)
             tracked.add(self)
 
         _deterministic_random_seed.__pynguin_patched__ = True  # type: ignore[attr-defined]
